@@ -59,6 +59,7 @@ type VC struct {
 	target    *ssa.Function // function under proof (nil for lemmas)
 	globalRefs map[string]int64
 	sideStack [][]*Term
+	specHeap  map[string][][2]string // spec function -> heap components (name, sort) it reads
 }
 
 type InputSym struct {
@@ -141,6 +142,7 @@ func (vc *VC) oblige(kind string, goal *Term, pos token.Position, desc string) *
 type State struct {
 	H     map[string]*Term // heap components (and "$alloc")
 	Reach *Term
+	Spec  bool // heap of a spec function body: components are implicit parameters
 }
 
 func (s State) clone() State {
@@ -148,7 +150,7 @@ func (s State) clone() State {
 	for k, v := range s.H {
 		h[k] = v
 	}
-	return State{H: h, Reach: s.Reach}
+	return State{H: h, Reach: s.Reach, Spec: s.Spec}
 }
 
 type RetSite struct {
@@ -218,6 +220,12 @@ func (x *Exec) comp(st *State, name, sort string) *Term {
 		if t.S != sort {
 			unsupported("heap component %s used at sorts %s and %s", name, t.S, sort)
 		}
+		return t
+	}
+	if st.Spec {
+		// inside a spec function body: heap components are implicit parameters
+		t := Sym("hp."+name, sort)
+		st.H[name] = t
 		return t
 	}
 	t := x.vc.decl("H0."+name, sort)
